@@ -59,6 +59,9 @@ class Check(PropertyCheck):
 
     def generate(self, rng, n, tier):
         for _i in range(n):
+            if _i == 2:
+                yield Scenario(["new", f"mark float32 {rng.randint(0, 10**6)}"], {"family": "float32", "accepted": 3, "observers": 3})
+                continue
             if _i % 15 == 8:
                 yield Scenario(["new", f"mark customfilter {rng.randint(0, 10**6)}"], {"family": "custom_filter", "accepted": 3, "observers": 3})
                 continue
@@ -151,11 +154,35 @@ class Check(PropertyCheck):
                 "observers": len(kinds), "filter_style": rng.choice(["callable", "enum", "str"])}
         return Scenario(lines, meta)
 
+    def float32_oracle(self, seed):
+        """Durations beyond 2**24 (feature matrices are float32): a machine's (job's) remaining work is kept by subtracting each
+        dispatched duration from a sum that was rounded when it was formed, so after a large operation has been dispatched the small
+        remainder is off (catastrophic cancellation) - while a recomputation from the unscheduled operations is exact."""
+        import jsl
+        from impl import build_instance
+        from job_shop_lib.dispatching.feature_observers import DurationObserver, FeatureType
+        r = random.Random(seed)
+        big = 2 ** r.choice([25, 26]) + 2
+        jobs = [[([1], 2), ([1], 5)], [([1], big), ([0], 2)]]
+        inst = build_instance(jobs)
+        d = jsl.Dispatcher(inst)
+        obs = DurationObserver(d)
+        res = []
+        d.dispatch(inst.jobs[1][0], 1)          # the large operation: machine 1 keeps 2 + 5 = 7 units of unscheduled work
+        got = float(obs.features[FeatureType.MACHINES][1][0])
+        if got != 7.0:
+            res.append(("duration-float32-cancellation", f"instance {jobs}: after the operation of duration {big} was dispatched the "
+                        f"DurationObserver reports {got} units of unscheduled work on machine 1, a recomputation from the unscheduled "
+                        f"operations gives 7"))
+        return res
+
     def nontrivial(self, scenario, outs):
         return scenario.meta.get("accepted", 0) >= 3 and scenario.meta.get("observers", 0) >= 3
 
     def oracle(self, impl, scenario, index, line, out, ctx):
         res = []
+        if line.startswith("mark float32"):
+            return self.float32_oracle(int(line.split()[2]))
         if line.startswith("mark customfilter"):
             return oracles.custom_filter_episode(int(line.split()[2]))["C11"]
         if line == "mark probe":
